@@ -138,11 +138,18 @@ class _EventQueue:
         # registers elsewhere from one of its own handlers): the rest of
         # that batch moves as well, in the order it would have been
         # dispatched, and the interrupted flush finds nothing left to do.
+        # The entries get sequence numbers of this queue: the other queue
+        # counted on its own, and its numbers say nothing about the order
+        # in which events were fired here and there.
         while other_queue._priority_queue:
-            self._queue.append(heappop(other_queue._priority_queue))
+            priority, _count, item = heappop(other_queue._priority_queue)
+            self._counter += 1
+            self._queue.append((priority, self._counter, item))
         other_queue._flush_batch = 0
-        self._queue.extend(other_queue._queue)
-        other_queue._queue.clear()
+        while other_queue._queue:
+            priority, _count, item = other_queue._queue.popleft()
+            self._counter += 1
+            self._queue.append((priority, self._counter, item))
 
     def append(self, event, channel, priority):
         self._counter += 1
